@@ -1078,3 +1078,136 @@ func TestVxC09SessionRoutingKey(t *testing.T) {
 		},
 	})
 }
+
+// ---- C05: a second page that does not match the first -------------------------------------------------
+
+type vxC05PageCase struct {
+	Proto    int               `json:"proto"`
+	First    *cqlspec.Response `json:"first"`  // page 1 (ROWS), gets the more-pages flag
+	Second   *cqlspec.Response `json:"second"` // whatever comes back for page 2 (any kind)
+	Mut      vxMut             `json:"mut"`
+	Consumer int               `json:"consumer"`
+}
+
+func TestVxC05Pages(t *testing.T) {
+	vx.Check(t, vx.Prop{
+		ID: "C05", Part: "TestVxC05Pages",
+		Rule: "a real session iterates a paged result: page 1 is a generated rows result with the more-pages flag; the answer to the follow-up request is an unrelated generated response (mostly rows with other columns / column counts / tuple columns, sometimes another kind), optionally mutated; consumed with Scan, Scanner, MapScan or SliceMap; oracle: iteration ends with rows or an error, nothing panics, the calls return; non-trivial = the second page's column list differs from the first; distinct by the case",
+		Draw: func(t *rapid.T) interface{} {
+			c := &vxC05PageCase{Proto: rapid.IntRange(2, 5).Draw(t, "proto"), Consumer: rapid.IntRange(0, 3).Draw(t, "consumer"), Mut: vxMut{Kind: "none"}}
+			for try := 0; try < 300 && (c.First == nil || c.Second == nil); try++ {
+				r := vxDrawResponse(t)
+				if r.Version != c.Proto {
+					continue
+				}
+				if r.Kind == "ROWS" && c.First == nil && len(r.Rows) > 0 {
+					c.First = r
+				} else if r.Kind != "EVENT" && c.Second == nil && (r.Kind == "ROWS" || rapid.IntRange(0, 3).Draw(t, "other") == 0) {
+					c.Second = r
+				}
+			}
+			if rapid.IntRange(0, 3).Draw(t, "mutate") == 0 {
+				c.Mut = vxDrawMut(t, true)
+			}
+			return c
+		},
+		New: func() interface{} { return &vxC05PageCase{} },
+		Run: func(ci interface{}, k *vstats.Case) error {
+			c := ci.(*vxC05PageCase)
+			if c.First == nil || c.Second == nil || c.First.Kind != "ROWS" || c.First.Meta == nil || c.Proto < 2 || c.Proto > 5 {
+				return nil
+			}
+			first := *c.First
+			m := *first.Meta
+			m.HasMore, m.StateHex, m.NoMetadata = true, "7061676532", false
+			first.Meta = &m
+			first.TraceHex, first.Warnings, first.HasPayload = "", nil, false
+			second := *c.Second
+			if second.Meta != nil {
+				m2 := *second.Meta
+				m2.HasMore, m2.StateHex = false, ""
+				second.Meta = &m2
+			}
+			if c.Proto < 4 {
+				second.Warnings, second.HasPayload, second.Payload = nil, false, nil
+			}
+			second.Compress = false
+			differs := second.Kind != "ROWS" || len(second.Meta.Columns) != len(first.Meta.Columns)
+			if differs {
+				k.NonTrivial()
+			}
+			k.Class("second=" + second.Kind)
+			k.Class(fmt.Sprintf("consumer=%d", c.Consumer))
+			cl := vnode.NewCluster(vxSpecs(1, 1))
+			cl.Nodes()[0].Handler = func(rc *vnode.ReqCtx) {
+				if rc.Req.Kind != "QUERY" {
+					rc.Reply(vxVoid())
+					return
+				}
+				if rc.Req.Params == nil || !rc.Req.Params.HasState {
+					rc.Reply(&first)
+					return
+				}
+				r := second
+				r.Version, r.Stream = rc.Req.Header.Version, rc.Req.Header.Stream
+				body, fields := r.Body()
+				b, _ := r.FrameWithBody(vxApplyMut(body, fields, c.Mut), nil)
+				rc.Conn.SendRaw(b)
+			}
+			done := make(chan string, 1)
+			go func() {
+				defer func() {
+					if r := recover(); r != nil {
+						done <- fmt.Sprintf("panic in the caller: %v\n%s", r, vxShortStack())
+					}
+				}()
+				s, err := vxClusterConfig(cl, c.Proto, func(cfg *ClusterConfig) { cfg.Timeout = 700 * time.Millisecond }).CreateSession()
+				if err != nil {
+					done <- ""
+					return
+				}
+				defer s.Close()
+				iter := s.Query("LIST paged").PageSize(len(first.Rows)).Iter()
+				n := 0
+				switch c.Consumer {
+				case 1:
+					sc := iter.Scanner()
+					for n < 200 && sc.Next() {
+						rd, err := iter.RowData()
+						if err != nil {
+							break
+						}
+						sc.Scan(rd.Values...)
+						n++
+					}
+					sc.Err()
+				case 2:
+					for n < 200 && iter.MapScan(map[string]interface{}{}) {
+						n++
+					}
+				case 3:
+					iter.SliceMap()
+				default:
+					for n < 200 {
+						rd, err := iter.RowData()
+						if err != nil || !iter.Scan(rd.Values...) {
+							break
+						}
+						n++
+					}
+				}
+				iter.Close()
+				done <- ""
+			}()
+			select {
+			case msg := <-done:
+				if msg != "" {
+					return fmt.Errorf("page 2 answered with %s (mutation %s), consumer %d: %s", second.Kind, c.Mut.Kind, c.Consumer, msg)
+				}
+				return nil
+			case <-time.After(25 * time.Second):
+				return fmt.Errorf("iteration did not return within 25 s (second page %s):\n%s", second.Kind, vxGoroutineDump())
+			}
+		},
+	})
+}
